@@ -536,6 +536,25 @@ func init() {
 			e.startPanic(n, errIface())
 		}), false
 	})
+	reg("(github.com/cosmos/cosmos-sdk/types.AccAddress).Equals", func(e *Exec, s *State, f *Frame, x *ssa.Call, a []Val) ([]*State, bool) {
+		ab := e.toBytesV(s, a[0])
+		bi, ok := a[1].(IfaceV)
+		if !ok || bi.T == nil {
+			return ret(f, x, boolc(ab.Nil || len(ab.Segs) == 0))
+		}
+		bb := e.toBytesV(s, bi.V)
+		if ab.Nil || len(ab.Segs) == 0 || bb.Nil || len(bb.Segs) == 0 {
+			return ret(f, x, boolc((ab.Nil || len(ab.Segs) == 0) == (bb.Nil || len(bb.Segs) == 0)))
+		}
+		return ret(f, x, Sym{Bool: true, S: tEq(addrTerm(ab), addrTerm(bb))})
+	})
+	reg("(github.com/cosmos/cosmos-sdk/types.AccAddress).Empty", func(e *Exec, s *State, f *Frame, x *ssa.Call, a []Val) ([]*State, bool) {
+		ab := e.toBytesV(s, a[0])
+		return ret(f, x, boolc(ab.Nil || len(ab.Segs) == 0))
+	})
+	reg("(github.com/cosmos/cosmos-sdk/types.AccAddress).Bytes", func(e *Exec, s *State, f *Frame, x *ssa.Call, a []Val) ([]*State, bool) {
+		return ret(f, x, a[0])
+	})
 	reg("github.com/cosmos/cosmos-sdk/x/auth/types.NewModuleAddress", func(e *Exec, s *State, f *Frame, x *ssa.Call, a []Val) ([]*State, bool) {
 		return ret(f, x, BytesV{Segs: []Seg{{Kind: "addr", T: e.moduleAddr(a[0])}}})
 	})
@@ -581,6 +600,33 @@ func init() {
 		return ret(f, x, SymStr{T: t})
 	})
 	reg("fmt.Sprint", freshStr)
+	reg("github.com/cosmos/gogoproto/proto.EnumName", func(e *Exec, s *State, f *Frame, x *ssa.Call, a []Val) ([]*State, bool) {
+		return ret(f, x, SymStr{T: "(strofint " + a[1].(Sym).S + ")"})
+	})
+	reg("strings.Join", func(e *Exec, s *State, f *Frame, x *ssa.Call, a []Val) ([]*State, bool) {
+		sl := a[0].(SliceV)
+		if sl.SymLen != "" {
+			return e.needLen(s, f, x.Call.Args[0], sl), false
+		}
+		els := e.sliceElems(s, sl)
+		allC := true
+		var parts []string
+		for _, el := range els {
+			if sv, ok := el.(StrV); ok {
+				parts = append(parts, sv.S)
+			} else {
+				allC = false
+			}
+		}
+		if sep, ok := a[1].(StrV); ok && allC {
+			return ret(f, x, StrV{strings.Join(parts, sep.S)})
+		}
+		t := e.strID(a[1])
+		for _, el := range els {
+			t = "(strcat " + t + " " + e.strID(el) + ")"
+		}
+		return ret(f, x, SymStr{T: t})
+	})
 	reg("fmt.Println", noop)
 	reg("fmt.Printf", noop)
 	reg("fmt.Print", noop)
